@@ -430,6 +430,15 @@ func (s *Set) Value(_ context.Context, t *dials.Type) (reflect.Value, error) {
 		}
 
 		ffield := s.trnslVal.FieldByName(fieldName)
+		switch ffield.Kind() {
+		case reflect.Ptr, reflect.Map, reflect.Slice, reflect.Interface:
+		default:
+			// Not pointerified: Pointerify does not reach the fields of a
+			// struct behind a pointer to a pointer (**T).
+			setErr = fmt.Errorf("flag %q: field %s of type %s cannot be set from a flag: expected a pointer, slice or map type",
+				f.Name, fieldName, ffield.Type())
+			return
+		}
 		if !ffield.IsNil() {
 			// there's a 1:1 mapping between flags and field names so panic if
 			// this happens
